@@ -23,8 +23,9 @@ json.dump(j, open(f"{root}/{dst}", "w"), indent=1, ensure_ascii=False)
 kf = f"{root}/known_findings.json"
 L = json.load(open(kf)) if os.path.exists(kf) else []
 L = [e for e in L if e["id"] != fid]
+entry = (f"fixed: property={prop} {commit} {what}" if status == "fixed" else f"KNOWN-FINDING: property={prop} {fid}: {what}")
 L.append({"property": prop, "id": fid, "status": status, "commit": None if commit == "-" else commit,
-          "signature": j["signature"], "replay": dst, "what": what})
+          "signature": j["signature"], "replay": dst, "what": what, "entry": entry})
 L.sort(key=lambda e: (e["property"], e["id"]))
 json.dump(L, open(kf, "w"), indent=1, ensure_ascii=False)
 print("registered", fid, "sig:", j["signature"])
